@@ -13,7 +13,7 @@ from . import leanrun
 KINDS = {"RunDaily": 0, "RunWeekly": 1, "RunMonthly": 2, "RunQuarterly": 3, "RunYearly": 4}
 
 
-def gen_stack(rng, names):
+def gen_stack(rng, names, lev=False):
     sched = [rng.choice(list(KINDS)), rng.random() < 0.7, rng.random() < 0.3, rng.random() < 0.3]
     if rng.random() < 0.3:
         sched[0] = "RunDaily"
@@ -22,12 +22,12 @@ def gen_stack(rng, names):
     else:
         k = rng.randint(1, len(names))
         sel = ["SelectThese", rng.sample(names, k)]
-    if rng.random() < 0.6:
+    if rng.random() < (0.6 if not lev else 0.0):
         wgh = ["WeighEqually"]
     else:
         k = rng.randint(1, len(names))
         pick = rng.sample(names, k)
-        tot = rng.choice([1.0, 1.0, 0.75, 0.5, 1.25])
+        tot = rng.choice([1.0, 1.0, 0.75, 0.5, 1.25]) if not lev else rng.choice([1.5, 2.0, 3.0, 4.0, 6.0])
         raw = [rng.choice([1, 1, 2, 3]) for _ in pick]
         ws = {n: tot * r / sum(raw) for n, r in zip(pick, raw)}
         if rng.random() < 0.15 and len(pick) > 1:
@@ -36,8 +36,9 @@ def gen_stack(rng, names):
     return [sched, sel, wgh, ["Rebalance"]]
 
 
-def gen_spec(rng, nested=None, depth3=False):
-    spec = R.gen_run_spec(rng, nested=False, T=rng.randint(5, 26))
+def gen_spec(rng, nested=None, depth3=False, lev=False, crash=False):
+    """lev: the root's weights are levered (1.5x-6x) so that crash paths bankrupt it"""
+    spec = R.gen_run_spec(rng, nested=False, T=rng.randint(5, 26), crash=crash)
     tick = list(spec["tickers"])
     if nested is None:
         nested = rng.random() < 0.45
@@ -49,7 +50,7 @@ def gen_spec(rng, nested=None, depth3=False):
             for i in range(rng.randint(1, 2)):
                 kids.append(mk("%s_s%d" % (name, i), avail, depth - 1))
         names = [k["name"] for k in kids] + own
-        return {"name": name, "tickers": own, "kids": kids, "stack": gen_stack(rng, names)}
+        return {"name": name, "tickers": own, "kids": kids, "stack": gen_stack(rng, names, lev and name == "top")}
 
     spec["tree"] = mk("top", tick, (2 if depth3 else 1) if nested else 0)
     # late listings: only selectors that filter on data may meet a NaN price
